@@ -51,6 +51,9 @@ CHECKS["C12"] = dict(engine="E-SPEC", cat="exploration",
 CHECKS["C14"] = dict(engine="E-SPEC x E-HIST", cat="exploration",
                      text="Single-Einsum hardware universe under several instance/frequency/bandwidth assignments plus all cascades of 2(-3) Einsum events over two hardware configurations (every fusion situation); the emitted program runs with stand-in models that hand out a distinct prime for every count; the metrics dictionary is compared with an independent roll-up: (A) time = sum over blocks of max over components of summed component times, over all component times present; (B) each component time = counts / (rate x instances); (C) every count handed out reaches metrics exactly once.",
                      note=HWREF + "; float division compared with exact rationals at 1e-9 relative tolerance", tech="bounded exhaustive enumeration of configurations/histories; execution with prime-valued stand-ins against an independent roll-up")
+CHECKS["C15"] = dict(engine="E-HIST", cat="model_checking",
+                     text="All histories of compile events up to depth 2 (quick) / 3-4 (thorough) over ~19 specifications (plain, partitioned, two flattenings yielding the same flattened rank name, follow(), spacetime, cascade, every kind of hardware binding, a format without cbits, the accelerator files); one set of parsed objects per specification and history; every transition calls the real HiFiber in its own forked interpreter. Oracles: parsed objects unchanged (deep snapshot), recompilation from the same objects succeeds with the same text, every text equals the text from a brand-new interpreter, interpreter-wide teaal state (class attributes, mutable defaults) does not grow when the same specification is recompiled.",
+                     note="histories bounded by depth; generic snapshot of everything reachable from the parsed objects; PYTHONHASHSEED fixed", tech="exhaustive exploration of operation histories on the implementation with snapshot and differential (fresh-interpreter) oracles")
 CHECKS["C16"] = dict(engine="E-SPEC x E-DATA", cat="exploration",
                      text="Bases (matmul plain / shape / occupancy / flatten / sigma, 3-operand product, sum, convolution plain and partitioned, broadcast) x level-monotone loop orders x every split of the loop ranks into space and time x styles (all-pos, all-coord, single-rank deviations) x slip on/off x all presence patterns; with recording createCanvas/addActivity/displayCanvas stand-ins: tensors equal those of the same specification compiled without spacetime, exactly one activity per executed update, one point per displayed tensor with one coordinate per rank of the tensor passed to createCanvas, and pairwise distinct (space,time) stamps when every loop rank is stamped.",
                      note="reference HiFiber model; bounded bases/extents", tech="bounded exhaustive enumeration of configurations x inputs with recording stand-ins")
